@@ -60,6 +60,26 @@ def check_case(case):
                 dis.append({"clause": "PointImage", "form": name, "seg": type(r).__name__,
                             "detail": "%s of %s x %s: segment %d (%s) point(%s) = %r, M(original point) = %r" % (name, shape, M, i, type(r).__name__, bad[0], bad[1], bad[2])})
                 break
+    # (X * M).point(t) on the shape object itself (the transform is held lazily)
+    if M != (1.0, 0.0, 0.0, 1.0, 0.0, 0.0):
+        try:
+            lazy = base * m
+            for t in (0.0, 0.3, 0.5, 1.0):
+                q0 = base.point(t)
+                if q0 is None:
+                    break
+                p = lazy.point(t)
+                w = c06.mapped(M, (q0.x, q0.y))
+                tol = 1e-9 * max(1.0, abs(w[0]), abs(w[1]))
+                if p is None or abs(p.x - w[0]) > tol or abs(p.y - w[1]) > tol:
+                    dis.append({"clause": "LazyPoint", "form": "(shape * M).point(t)",
+                                "ignores_transform": p is not None and abs(p.x - q0.x) <= tol and abs(p.y - q0.y) <= tol,
+                                "detail": "(%s x %s).point(%s) = %r, M(shape.point(%s)) = %r" % (shape, M, t, p, t, w)})
+                    break
+        except engine.CaseTimeout:
+            raise
+        except Exception as e:
+            dis.append({"clause": "Raises", "form": "(shape * M).point(t)", "detail": "%s: %s" % (type(e).__name__, str(e)[:60])})
     tc = c06.transform_class(M)
     for x in dis:
         x["kind"] = shape[0]
